@@ -52,6 +52,14 @@ def main(repo="/repo", outdir=None):
         if old != res["text"]:
             open(path, "w").write(res["text"])
         report[name] = {"errors": res["errors"], "changed": old != res["text"], "targets": res["targets"]}
+    import py2ctor
+    importlib.reload(py2ctor)
+    for name, res in py2ctor.generate(repo).items():  # constructors / argument checks as exception-valued functions (C13)
+        path = os.path.join(outdir, name + ".lean")
+        old = open(path).read() if os.path.exists(path) else None
+        if old != res["text"]:
+            open(path, "w").write(res["text"])
+        report[name] = {"errors": res["errors"], "changed": old != res["text"], "targets": res["targets"]}
     import py2ast, targets_ast
     importlib.reload(py2ast); importlib.reload(targets_ast)
     res = py2ast.generate_ast(repo, targets_ast.SPECS)
